@@ -41,6 +41,7 @@ class Ctx(object):
         self.alias = {}                             # local name -> canonical operator expression (string)
         self.spaces = {}                            # local name -> canonical space expression
         self.sdefs = {}                             # scalar local -> defining expression (inlined)
+        self.normdefs = {}                          # scalar local d -> vector name v  for  d = -v.norm() ** 2
         self.ranges = {}                            # rng -> 'range(length)'
         self.pre, self.body = [], None
         self.inner = []                             # (index var, [stmts]) of nested for loops
@@ -251,6 +252,9 @@ def scalar_rhs_ok(ctx, v):
         return True
     if is_kwargs_pop(v):
         return True
+    if isinstance(v, ast.Call) and isinstance(v.func, ast.Name) and v.func.id == 'ConstantLineSearch' \
+            and len(v.args) == 1 and isinstance(v.args[0], ast.Name) and v.args[0].id == 'line_search':
+        return True
     # lam = lam_in if callable(lam_in) else (lambda _: float(lam_in))
     if isinstance(v, ast.IfExp) and isinstance(v.body, ast.Name) and v.body.id in ctx.scalars \
             and isinstance(v.orelse, ast.Lambda):
@@ -291,6 +295,16 @@ def stmt(ctx, s, out, depth):
         return                                                   # docstring
     if isinstance(s, ast.If):
         test = ast.unparse(s.test)
+        # if np.abs(d) < tol: return      with  d = -v.norm() ** 2
+        t = s.test
+        if (depth == 1 and not s.orelse and len(s.body) == 1 and isinstance(s.body[0], ast.Return)
+                and s.body[0].value is None and isinstance(t, ast.Compare) and len(t.ops) == 1
+                and isinstance(t.ops[0], ast.Lt) and isinstance(t.left, ast.Call)
+                and ast.unparse(t.left.func) == 'np.abs' and len(t.left.args) == 1
+                and isinstance(t.left.args[0], ast.Name) and t.left.args[0].id in ctx.normdefs
+                and is_scalar(ctx, t.comparators[0])):
+            emit('(ReturnIfNormSqLt %s %s)' % (cstr(ctx.normdefs[t.left.args[0].id]), sx(ctx, t.comparators[0])))
+            return
         if test in ctx.flags:
             stmts(ctx, s.body if ctx.flags[test] else s.orelse, out, depth)
             return
@@ -380,6 +394,20 @@ def stmt(ctx, s, out, depth):
                     return
                 if len(ids) == 1 and is_scalar(ctx, v):
                     ctx.sdefs[ids[0]] = pick(ctx, v)
+                    return
+                # d = -v.norm() ** 2
+                if (len(ids) == 1 and isinstance(v, ast.UnaryOp) and isinstance(v.op, ast.USub)
+                        and isinstance(v.operand, ast.BinOp) and isinstance(v.operand.op, ast.Pow)
+                        and isinstance(v.operand.right, ast.Constant) and v.operand.right.value == 2
+                        and isinstance(v.operand.left, ast.Call) and not v.operand.left.args
+                        and isinstance(v.operand.left.func, ast.Attribute) and v.operand.left.func.attr == 'norm'
+                        and vname(ctx, v.operand.left.func.value) is not None):
+                    ctx.normdefs[ids[0]] = vname(ctx, v.operand.left.func.value)
+                    return
+                # step = line_search(x, -grad_x, dir_derivative): a ConstantLineSearch returns its constant
+                if (len(ids) == 1 and ctx.flags.get('line_search is a ConstantLineSearch') and isinstance(v, ast.Call)
+                        and isinstance(v.func, ast.Name) and v.func.id == 'line_search' and len(v.args) == 3
+                        and not v.keywords):
                     return
                 ctx.err(s, 'scalar update inside the loop')
             if not scalar_rhs_ok(ctx, v):
@@ -505,6 +533,11 @@ CONFIG = {
     'proximal_gradient': dict(
         file=N + 'proximal_gradient_solvers.py', scalars=['gamma', 'gamma_in', 'niter', 'lam', 'lam_in', 'lam_k'],
         vectors=['x'], operators=['f', 'g'], flags={'callback is not None': True}),
+    'steepest_descent': dict(
+        file='odl/solvers/smooth/gradient.py', scalars=['maxiter', 'tol', 'step', 'dir_derivative', 'line_search'],
+        vectors=['x'], operators=['f'],
+        flags={'callback is not None': True, 'projection is not None': True, 'not callable(line_search)': True,
+               'line_search is a ConstantLineSearch': True}),
     # ---- solvers over lists of operators: preamble pinned by hash, inner loops per index
     'adupdates': dict(
         file=N + 'alternating_dual_updates.py', scalars=['stepsize', 'niter', 'step'], vectors=['x'], operators=[],
